@@ -96,12 +96,33 @@ def run_nrt(prog, tape, emit, tail=0.0, seed=7, perturb=None, prior=None):
         for _ in range(perturb):
             bi.rand(1.0)
     it.start_root()
-    score = main.process(tail)
+    try:
+        score = main.process(tail)
+    except Exception as e:
+        return nrt_failed(e, it.trace, w)
     lst = score.list
     raw = bytes(score.raw)
     return {'outcome': 'ok', 'trace': it.trace, 'score': lst,
             'raw': raw.hex(), 'elapsed': main.elapsed_time(),
             'errors': [r[:3] for r in w.error_logs()]}
+
+
+def nrt_failed(exc, trace, w):
+    """main.process() itself raised: the render has no result."""
+    return {'outcome': 'ok', 'trace': trace, 'score': [], 'raw': '',
+            'elapsed': None,
+            'process_error': f'{type(exc).__name__}: {exc}',
+            'errors': [r[:3] for r in w.error_logs()]}
+
+
+def process_raised(viol, oracle, *worlds):
+    """-> True (and a violation) if a non-real-time render raised."""
+    for res in worlds:
+        if res.get('process_error'):
+            viol.add(oracle, 'nrt-process-raised',
+                     'main.process() raised ' + res['process_error'])
+            return True
+    return False
 
 
 def combine(subs):
